@@ -109,6 +109,7 @@ def check(prog, ctx):
     ctx.sub('layout', layout, prog, ctx)
     ctx.sub('affine_region', affine_region, prog, ctx, cl)
     ctx.sub('miser_estimator', miser_estimator, prog, ctx)
+    ctx.sub('vegas_bin_of_point', vegas_bin_of_point, prog, ctx)
     ctx.sub('results', results, prog, ctx)
 
 
@@ -478,6 +479,64 @@ def results(prog, ctx):
                     and volarg[:1] == [show(strip_casts(a_[regs[0]]))] and strip_casts(a_[cnts[0]]).get('rk') == 'param'
     ctx.decide('C14.e', 'Miser:estimate', im, okm, 'returns MC_Volume(region)*average with average the mean computed by Miser over the same region',
                'Miser estimate is %s' % v)
+
+
+def vegas_bin_of_point(prog, ctx):
+    """Vegas places a point inside grid bin ia = clamp(int(xn)) at the fractional position xn - ia of ITS OWN stratified coordinate
+    xn: the bin index subtracted from xn must be defined, in the same loop body and after xn, as the integer part of that xn.
+    Otherwise xn - ia leaves [-1, 0] and the point is extrapolated out of the bin (and out of the region)."""
+    vg = prog.fn(L + 'Integrate_MC_Vegas')
+    inst = 'Vegas:bin-of-point'
+    uses = []
+    # the body of the innermost loop around each use, and the position of the use in it
+    for lp in [l_ for l_ in walk_stmts(vg.body) if l_['k'] in ('For', 'While', 'Do')]:
+        comp = lp.get('body')
+        if not comp or comp.get('k') != 'Compound':
+            continue
+        for pos, st_ in enumerate(comp['body']):
+            inner_loops = [y_ for y_ in walk_stmts(st_) if y_['k'] in ('For', 'While', 'Do')]
+            for x_ in walk_stmts(st_):
+                if any(x_ is z_ or any(x_ is w_ for w_ in walk_stmts(z_)) for z_ in inner_loops):
+                    continue          # belongs to a deeper loop: handled there
+                for e_ in stmt_exprs(x_):
+                    for n_ in walk_expr(e_):
+                        if n_.get('k') == 'Bin' and n_.get('op') == '-' and strip_casts(n_['lhs']).get('k') == 'Ref' \
+                                and strip_casts(n_['rhs']).get('k') == 'Index' and strip(strip_casts(n_['rhs'])['base']).get('k') == 'Ref' \
+                                and 'int' in str(strip_casts(n_['rhs']).get('ty', '')) and 'double' in str(strip_casts(n_['lhs']).get('ty', '')):
+                            uses.append((comp, pos, strip_casts(n_['lhs']), strip_casts(n_['rhs'])))
+    if not uses:
+        ctx.undecided('C14.d', inst, vg, 'no fractional bin position `xn - ia[j]` found')
+        return
+    probs = []
+    for comp, pos, xv, ix in uses:
+        arr, idx = strip(ix['base'])['name'], show(strip_casts(ix['idx']))
+        # last assignments to xn and to ia[idx] before the use inside this compound
+        def_x = def_i = None
+        for p2, st_ in enumerate(comp['body'][:pos + 1]):
+            for x_ in walk_stmts(st_):
+                if x_['k'] != 'Expr':
+                    continue
+                e_ = strip(x_['e'])
+                if e_.get('k') == 'Bin' and e_['op'] == '=':
+                    l_ = strip(e_['lhs'])
+                    if l_.get('k') == 'Ref' and l_.get('id') == xv.get('id') and p2 <= pos:
+                        def_x = (p2, e_)
+                    if l_.get('k') == 'Index' and strip(l_['base']).get('name') == arr and show(strip_casts(l_['idx'])) == idx and p2 < pos:
+                        def_i = (p2, e_)
+        if def_i is None:
+            probs.append('the bin index %s[%s] subtracted from `%s` (line %s) is not computed in the loop body that draws `%s`: every point of the '
+                         'loop is placed relative to a bin chosen elsewhere' % (arr, idx, xv['name'], ix.get('l'), xv['name']))
+            continue
+        if def_x is None or def_x[0] > def_i[0]:
+            probs.append('%s[%s] is computed before `%s` is drawn (line %s)' % (arr, idx, xv['name'], ix.get('l')))
+            continue
+        uses_x = any(n_.get('k') == 'Ref' and n_.get('id') == xv.get('id') for n_ in walk_expr(def_i[1]['rhs']))
+        to_int = any(n_.get('k') == 'Cast' and n_.get('ck') == 'FloatingToIntegral' for n_ in walk_expr(def_i[1]['rhs'])) or \
+            any(n_.get('k') == 'Call' and (n_.get('callee') or {}).get('name') in ('floor', 'trunc') for n_ in walk_expr(def_i[1]['rhs']))
+        if not (uses_x and to_int):
+            probs.append('%s[%s] = %s is not the integer part of `%s`' % (arr, idx, show(def_i[1]['rhs'])[:60], xv['name']))
+    ctx.decide('C14.d', inst, vg, not probs, 'the bin of every sample point is the integer part of its own stratified coordinate (%d uses)' % len(uses),
+               '; '.join(sorted(set(probs))[:2]), witness={'reproducer': '4-D, 2e4 calls, peaked integrand: points leave the region by up to 11% of its width'} if probs else None)
 
 
 def miser_estimator(prog, ctx):
